@@ -56,6 +56,17 @@ extern bool cmi_process_remove_awaitable(struct cmb_process *pp,
                                          enum cmi_process_awaitable_type type,
                                          const void *awaitable);
 
+/*
+ * Is the process (still) registered as waiting for this? NULL matches any
+ * awaitable of the type. The event that wakes a process up from a wait takes
+ * the registration away before it resumes the process, which is how the wait
+ * tells its own wakeup call from a success code that was meant for something
+ * else (a resume for a yield, a timer carrying the success code).
+ */
+extern bool cmi_process_is_awaiting(const struct cmb_process *pp,
+                                    enum cmi_process_awaitable_type type,
+                                    const void *awaitable);
+
 extern void cmi_process_cancel_awaiteds(struct cmb_process *pp);
 
 /*
